@@ -78,16 +78,52 @@ def builtin_glue(needs_module: str) -> Callable[[InstallGlueFn], InstallGlueFn]:
 
     def decorate(fn: InstallGlueFn) -> InstallGlueFn:
         assert needs_module not in builtin_glue_pending
-        if needs_module in sys.modules and "sphinx" not in sys.modules:
-            fn()
-        else:
-            builtin_glue_pending[needs_module] = fn
+        builtin_glue_pending[needs_module] = fn
+        module = sys.modules.get(needs_module)
+        if (
+            module is not None
+            and "sphinx" not in sys.modules
+            # Module-provided glue takes precedence, but can't be expected
+            # to work before stackscope has finished importing; leave both
+            # pending until the first extraction in that case.
+            and "_stackscope_install_glue_" not in getattr(module, "__dict__", ())
+        ):
+            with glue_lock:
+                install_glue_for_module(needs_module)
         return fn
 
     return decorate
 
 
 glue_lock = threading.Lock()
+
+
+def install_glue_for_module(module_name: str) -> None:
+    """Run the glue for *module_name*, if there is any that hasn't run yet.
+    The caller must hold ``glue_lock``."""
+    builtin_fn = builtin_glue_pending.pop(module_name, None)
+    try:
+        module_fn = sys.modules[module_name].__dict__.pop(
+            "_stackscope_install_glue_", None
+        )
+    except Exception:  # module disappeared, doesn't have a dict, etc
+        module_fn = None
+    try:
+        # Prefer the module-supplied glue over our builtin version
+        # in case both are present
+        if module_fn is not None:
+            module_fn()
+        elif builtin_fn is not None:
+            builtin_fn()
+    except Exception as exc:
+        kind = "module-provided" if module_fn is not None else "stackscope-builtin"
+        exc_str = "".join(traceback.format_exception_only(type(exc), exc)).strip()
+        warnings.warn(
+            f"Failed to initialize {kind} glue for {module_name}: {exc_str}. "
+            "Some tracebacks may be presented less crisply or with "
+            "missing information.",
+            RuntimeWarning,
+        )
 
 
 def add_glue_as_needed(*, _sys_modules_len_cache: list[int] = [0]) -> None:
@@ -98,33 +134,7 @@ def add_glue_as_needed(*, _sys_modules_len_cache: list[int] = [0]) -> None:
     with glue_lock:
         module_names = tuple(sys.modules)
         for module_name in module_names:
-            builtin_fn = builtin_glue_pending.pop(module_name, None)
-            try:
-                module_fn = sys.modules[module_name].__dict__.pop(
-                    "_stackscope_install_glue_", None
-                )
-            except Exception:  # module disappeared, doesn't have a dict, etc
-                module_fn = None
-            try:
-                # Prefer the module-supplied glue over our builtin version
-                # in case both are present
-                if module_fn is not None:
-                    module_fn()
-                elif builtin_fn is not None:
-                    builtin_fn()
-            except Exception as exc:
-                kind = (
-                    "module-provided" if module_fn is not None else "stackscope-builtin"
-                )
-                exc_str = "".join(
-                    traceback.format_exception_only(type(exc), exc)
-                ).strip()
-                warnings.warn(
-                    f"Failed to initialize {kind} glue for {module_name}: {exc_str}. "
-                    "Some tracebacks may be presented less crisply or with "
-                    "missing information.",
-                    RuntimeWarning,
-                )
+            install_glue_for_module(module_name)
         # Only update the length cache if we visited every module (rather
         # than bailing out with an exception)
         _sys_modules_len_cache[0] = len(module_names)
